@@ -98,6 +98,14 @@ def check_diff(out, base, d, clause, strlevel="lines"):
     if interesting(pd):
         out.count("diffs_interesting")
     probs = wellformed(base, pd, strlevel=strlevel) + addrange_before_others(pd)
+    if clause.startswith("decision_"):
+        # Diffs collected from several sub-decisions may insert twice at one position (e.g. an insertion both sides agree on plus one side's
+        # own): ordered, in bounds and not overlapping, which is all the statement asks. The differs themselves never emit this (one sorted
+        # stream per list, the merge chunker relies on it), so it stays an error for differ output.
+        rep = [p for p in probs if ": two addranges at " in p]
+        if rep:
+            out.count("decision_diffs_inserting_twice_at_one_position_(allowed)")
+            probs = [p for p in probs if p not in rep]
     for p in probs[:2]:
         out.fail(clause + "_wellformed", "not_wellformed", _gen(p), detail={"problem": p, "diff": pd})
     for p in schema_problems(pd)[:1]:
